@@ -308,4 +308,48 @@ theorem splitter1x2_passive (x : Fin 3 → ℂ) :
   simp only [Complex.normSq_mul, Complex.normSq_ofReal, h2]
   linarith [Complex.normSq_nonneg (x 0)]
 
+/-! ### UserWaveguide (two modes), BeamSplitter with an explicit transmission -/
+
+/-- two modes side by side, each a waveguide with its own index: `diag_blocks` of the per-mode 2×2 blocks -/
+noncomputable def userWaveguide2 (L wl n0 n1 : ℝ) : Matrix (Fin 4) (Fin 4) ℂ :=
+  twoArms (cexp (2 * I * Real.pi * n0 / wl * L)) (cexp (2 * I * Real.pi * n1 / wl * L))
+
+theorem userWaveguide2_modes (L wl n0 n1 : ℝ) :
+    (∀ i j : Fin 2, userWaveguide2 L wl n0 n1 (Fin.castLE (by norm_num) i) (Fin.castLE (by norm_num) j) = waveguide L n0 wl i j) ∧
+    (∀ i j : Fin 2, userWaveguide2 L wl n0 n1 (Fin.natAdd 2 i) (Fin.natAdd 2 j) = waveguide L n1 wl i j) ∧
+    (∀ i j : Fin 2, userWaveguide2 L wl n0 n1 (Fin.castLE (by norm_num) i) (Fin.natAdd 2 j) = 0) ∧
+    (∀ i j : Fin 2, userWaveguide2 L wl n0 n1 (Fin.natAdd 2 i) (Fin.castLE (by norm_num) j) = 0) := by
+  refine ⟨?_, ?_, ?_, ?_⟩ <;> intro i j <;> fin_cases i <;> fin_cases j <;>
+    simp [userWaveguide2, twoArms, waveguide, antidiag, Fin.natAdd, Fin.castLE]
+
+theorem userWaveguide2_unitary (L wl n0 n1 : ℝ) : (userWaveguide2 L wl n0 n1)ᴴ * userWaveguide2 L wl n0 n1 = 1 := by
+  apply twoArms_unitary
+  · have : (2 * I * Real.pi * n0 / wl * L : ℂ) = ((2 * Real.pi * n0 / wl * L : ℝ) : ℂ) * I := by push_cast; ring
+    rw [this]; exact conj_exp_mul _
+  · have : (2 * I * Real.pi * n1 / wl * L : ℂ) = ((2 * Real.pi * n1 / wl * L : ℝ) : ℂ) * I := by push_cast; ring
+    rw [this]; exact conj_exp_mul _
+
+/-- BeamSplitter with an explicit power transmission `t`: through coefficient `sqrt t`, cross `i sqrt ratio` -/
+noncomputable def beamSplitterT (ratio t phase : ℝ) : Matrix (Fin 4) (Fin 4) ℂ :=
+  coupler (cexp (2 * I * Real.pi * phase) * ((Real.sqrt t : ℝ) : ℂ))
+          (cexp (2 * I * Real.pi * phase) * (I * ((Real.sqrt ratio : ℝ) : ℂ)))
+
+theorem beamSplitterT_power (ratio t phase : ℝ) (h0 : 0 ≤ ratio) (ht : 0 ≤ t) :
+    Complex.normSq (beamSplitterT ratio t phase 0 2) = t ∧ Complex.normSq (beamSplitterT ratio t phase 0 3) = ratio ∧
+    Complex.normSq (beamSplitterT ratio t phase 2 0) = t ∧ Complex.normSq (beamSplitterT ratio t phase 3 0) = ratio ∧
+    beamSplitterT ratio t phase 0 0 = 0 ∧ beamSplitterT ratio t phase 0 1 = 0 := by
+  have he : Complex.normSq (cexp (2 * I * Real.pi * phase)) = 1 := by
+    have : (2 * I * Real.pi * phase : ℂ) = ((2 * Real.pi * phase : ℝ) : ℂ) * I := by push_cast; ring
+    rw [this]; exact normSq_exp_mul _
+  refine ⟨?_, ?_, ?_, ?_, rfl, rfl⟩ <;>
+    simp [beamSplitterT, coupler, Complex.normSq_mul, he, Complex.normSq_ofReal, Real.mul_self_sqrt h0, Real.mul_self_sqrt ht]
+
+theorem beamSplitterT_none (ratio phase : ℝ) : beamSplitterT ratio (1 - ratio) phase = beamSplitter ratio phase := rfl
+
+/-- `Splitter1x2Gen(cross, phase)` as built by the source -/
+noncomputable def splitter1x2Gen (cross phase : ℝ) : Matrix (Fin 3) (Fin 3) ℂ :=
+  let t : ℂ := (Real.sqrt (1 / 2 - cross) : ℝ)
+  let c : ℂ := (Real.sqrt cross : ℝ)
+  !![0, t, t; t, 0, c * cexp (I * (Real.pi * phase)); t, c * cexp (-I * (Real.pi * phase)), 0]
+
 end Blocks
